@@ -121,11 +121,10 @@ class Report:
             self.errors.append('%d refuted obligations without a violation record: %s' % (len(bad), [o['name'] for o in bad][:6]))
         for e in self.errors: print('ENGINE-ERROR property=%s %s' % (self.prop, e))
         if getattr(self, 'suppressed', 0): print('  (+%d further refuted obligations not replayed separately; see evidence notes)' % self.suppressed)
+        for u in self.undecided[:40]: print('UNDECIDED property=%s obligation=%s reason=%s' % (self.prop, u['obligation'], u['reason']))
         if self.violations or getattr(self, 'suppressed', 0): return 1
         if self.errors: return 3
-        if self.undecided:
-            for u in self.undecided: print('UNDECIDED property=%s obligation=%s reason=%s' % (self.prop, u['obligation'], u['reason']))
-            return 2
+        if self.undecided: return 2
         return 0
 
 def _count(lst, key):
